@@ -18,7 +18,14 @@ def main(argv):
     except ModuleNotFoundError as e:
         print(f"no check for {pid}: {e}")
         return 2
-    return mod.run(tier)
+    try:
+        return mod.run(tier)
+    except Exception:  # noqa: BLE001 - a harness/engine error is inconclusive, never a violation
+        import traceback
+
+        traceback.print_exc()
+        print(f"INCONCLUSIVE: check {pid} crashed (harness or engine error)")
+        return 2
 
 
 if __name__ == "__main__":
